@@ -61,7 +61,20 @@ def adapt_node(
     onnx.checker.check_model(source_model, full_check=True)
     target_model = onnx.version_converter.convert_version(source_model, target_version)
 
-    return list(target_model.graph.node)
+    # Values introduced by the converter (e.g. a Constant holding former attribute data)
+    # get names that are only unique within the singleton model. Qualify them with the
+    # (unique) name of the adapted node so that they cannot clash in the enclosing model.
+    target_nodes = list(target_model.graph.node)
+    known = set(proto.input) | set(proto.output)
+    introduced = {
+        name for nd in target_nodes for name in nd.output if name and name not in known
+    }
+    for nd in target_nodes:
+        for names in (nd.input, nd.output):
+            names[:] = [
+                f"{proto.name}__{name}" if name in introduced else name for name in names
+            ]
+    return target_nodes
 
 
 def adapt_inline(
